@@ -42,6 +42,7 @@ func (x *Worker) Do(fn func(stop <-chan struct{})) (done func()) {
 	}
 	verifAt("worker.do.lock", x, 0)
 	x.mu.Lock()
+	verifAt("worker.do.locked", x, 0)
 	defer x.mu.Unlock()
 	if x.stop == nil && x.done == nil {
 		x.stop, x.done = make(chan struct{}), make(chan struct{})
@@ -58,6 +59,7 @@ func (x *Worker) wait() {
 	for {
 		verifAt("worker.wait.lock", x, 0)
 		x.mu.Lock()
+		verifAt("worker.wait.locked", x, 0)
 		wg := x.wg
 		if wg == nil {
 			break
